@@ -27,6 +27,6 @@ ImplAgrees == \A p \in UPairs : (NormOK(p[1]) /\ NormOK(p[2])) =>
                  ImplValEq(Norm(p[1]), Norm(p[2])) = PyEq(Norm(p[1]), Norm(p[2]))
 ASSUME Bug = "none" => ImplAgrees
 ASSUME PrintT(<< "laws checked over", Cardinality(Stored), "stored trees", Cardinality(UPairs), "pairs" >>)
-Init == objs = << >> /\ dict = << >> /\ last = 0
-Next == UNCHANGED << objs, dict, last >>
+Init == objs = << >> /\ dict = << >> /\ last = 0 /\ cmemo = {}
+Next == UNCHANGED << objs, dict, last, cmemo >>
 =============================================================================
